@@ -58,6 +58,8 @@ fn stall_s(ctx: &Ctx) -> f64 {
 fn outer_s(ctx: &Ctx) -> f64 {
     if ctx.mode == "miri" {
         1500.0
+    } else if ctx.mode == "tsan" {
+        900.0
     } else {
         OUTER_S
     }
@@ -624,7 +626,10 @@ pub fn run(ctx: &Ctx, rep: &mut Report) {
             let p = c03::random_root(&mut rng, &corpus);
             let mut s = crate::scenario::Step::new(&p.fen(), 6, *c03::WORKERS.choose(&mut rng).unwrap(), rng.gen());
             s.depth = if rng.gen_bool(0.5) { None } else { Some(6) };
-            s.cancel_at = Some((10f64.powf(rng.gen_range(0.0..5.5))) as u64);
+            s.cancel_at = Some((10f64.powf(rng.gen_range(0.0..if ctx.mode == "tsan" { 4.5 } else { 5.5 }))) as u64);
+            if ctx.mode == "tsan" {
+                s.depth = s.depth.map(|d| d.min(4));
+            }
             if rng.gen_bool(0.3) {
                 s.delay = Some((rng.gen(), 1024));
             }
@@ -632,7 +637,15 @@ pub fn run(ctx: &Ctx, rep: &mut Report) {
             sync_scenario(&sc, &ev, ctx, rep);
             continue;
         }
-        let case = make_case(&mut rng, &corpus, kind);
+        let mut case = make_case(&mut rng, &corpus, kind);
+        if ctx.mode == "tsan" {
+            // the instrumented build runs 5-10x slower: the same schedules with less work per search
+            // (a thorough run on a loaded machine once spent the whole outer watchdog on one search)
+            case.depth = case.depth.map(|d| if d <= 6 { d.min(4) } else { d });
+            for s in case.stops.iter_mut() {
+                *s = (*s).min(30_000);
+            }
+        }
         rep.count(&format!("cases_{}", kind), 1);
         match run_case(&case, &ev, ctx, rep) {
             Verdict::Ok(Some(a)) => {
